@@ -266,8 +266,10 @@ def disconnect_block(ctx, P):
     ctx.ob("DisconnectBlock/input-correspondence", "SYMMETRY", "input vin[j] is restored from undo entry vprevout[j] at outpoint vin[j].prevout, into the view being disconnected",
            ok, ap[0].where, {"args": [show(a[0]), show(a[1]), show(outv)]})
     txk, unk = re.escape(F.key(F.expand(["local", tx], sub))), re.escape(F.key(F.expand(["local", un], sub)))
-    atoms = {"READ": re.compile(r"m_blockman\.ReadBlockUndo\(blockUndo, \*pindex\)"),
-             "BLOCKSIZES": re.compile(r"(1 \+ blockUndo\.vtxundo\.size\(\) == block\.vtx\.size\(\)|block\.vtx\.size\(\) == 1 \+ blockUndo\.vtxundo\.size\(\)|blockUndo\.vtxundo\.size\(\) \+ 1 == block\.vtx\.size\(\))"),
+    bu = re.escape(show(decls[un]["i"][1][1]))      # the CBlockUndo object (name is free)
+    atoms = {"READ": re.compile(r"m_blockman\.ReadBlockUndo\(%s, \*pindex\)" % bu),
+             "BLOCKSIZES": re.compile(r"(1 \+ BU\.vtxundo\.size\(\) == block\.vtx\.size\(\)|block\.vtx\.size\(\) == 1 \+ BU\.vtxundo\.size\(\)|BU\.vtxundo\.size\(\) \+ 1 == block\.vtx\.size\(\)|"
+                                      r"BU\.vtxundo\.size\(\) == block\.vtx\.size\(\) - 1|block\.vtx\.size\(\) - 1 == BU\.vtxundo\.size\(\))".replace("BU", bu)),
              "NONCOINBASE": (re.compile(r"%s < 1" % ti), False),
              "TXSIZES": re.compile(r"(%s\.vin\.size\(\) == %s\.vprevout\.size\(\)|%s\.vprevout\.size\(\) == %s\.vin\.size\(\))" % (txk, unk, unk, txk))}
     fb, mp, u_ = F.bind_atoms(ap[0].formula(sub), atoms)
